@@ -228,6 +228,7 @@ class AbiAnalysis:
         self.report, self.stats = report, stats
         self.seen = set()
         self.args_read = set()
+        self.stored_through = set()      # pointer arguments some store address derives from
         self.ptr_args = set()            # indices of pointer parameters
         self.const_args = set()          # ... of those declared pointer-to-const
 
@@ -360,19 +361,33 @@ class AbiAnalysis:
         pre_vals = dict(st["regs"])
         # ---- provenance of pointer arguments; a store through an address built only from pointer-to-const arguments writes an input
         pv = st.setdefault("pv", {})
-        if "store" in ins["f"] and self.const_args:
+        if "store" in ins["f"]:
             for m in mems:
                 srcs = frozenset()
                 for key in ("base", "index"):
                     if key in m:
                         srcs |= pv.get(m[key]["top"], frozenset())
+                self.stored_through |= srcs
                 if srcs and srcs <= self.const_args:
                     self.rep(a, "store-through-const-arg:%s" % ",".join(ARG_REGS[i] for i in sorted(srcs)),
                              "this instruction stores to memory addressed only through argument %s, which the C prototype declares pointer-to-const: "
                              "the kernel writes into a source operand" % ", ".join("%d (%s)" % (i + 1, ARG_REGS[i]) for i in sorted(srcs)))
+        if op == "MOV64mr" and mems and ins["uses"]:
+            o_ = self.sp_off(st, mems[0])
+            if o_ is not None:
+                srcreg = [x for x in ins["uses"] if x["top"] in GPR and x["top"] != "rsp"]
+                v_ = pv.get(srcreg[-1]["top"], frozenset()) if srcreg else frozenset()
+                if v_:
+                    pv[("slot", o_)] = v_              # an argument pointer parked in the frame keeps its provenance
+                else:
+                    pv.pop(("slot", o_), None)
         if defs:
             load = "load" in ins["f"] and not op.startswith("LEA")
             inherited = frozenset()
+            if op == "MOV64rm" and mems:
+                o_ = self.sp_off(st, mems[0])
+                if o_ is not None:
+                    inherited = pv.get(("slot", o_), frozenset())
             if not load and not (ZERO_IDIOM.match(mn) and len({x["top"] for x in ins["uses"]}) == 1 and not mems):
                 for x in uses:
                     inherited |= pv.get(x["top"], frozenset())
@@ -664,6 +679,7 @@ def ret_bits(t):
 
 
 UNUSED_ARGS = []
+NOSTORE = []
 
 
 def run(prop="C14", tier="quick"):
@@ -716,6 +732,14 @@ def run(prop="C14", tier="quick"):
             res["stats"]["entries_analysed"] += 1
             if p is not None and src != fixture:
                 res["stats"]["argument_registers"] += arity
+                for i in sorted(an.ptr_args - an.const_args):
+                    res["stats"]["output_pointer_args"] += 1
+                    if i not in an.stored_through:
+                        NOSTORE.append((relpath(src), name, i))
+                        found.append((addr, "output-arg-never-written:%s" % ARG_REGS[i],
+                                      "%s: no store in the kernel uses an address derived from argument %d (%s), which the C prototype declares as "
+                                      "a pointer to non-const limbs: that output operand is never written (every kernel of the library stores "
+                                      "through each of its output pointers)" % (name, i + 1, ARG_REGS[i])))
                 for i in range(arity):
                     if ARG_REGS[i] not in an.args_read:
                         UNUSED_ARGS.append((relpath(src), name, i, ARG_REGS[i]))
